@@ -128,6 +128,8 @@ def run_tlc(module, cfg=None, *, cfg_text=None, workers=16, simulate=None, depth
                     res.violated.append(m.group(1) or m.group(2) or "temporal")
                 if "Model checking completed. No error has been found." in line or "Finished in" in line:
                     finished = True
+                if line.startswith("Error: The behavior up to this point is") or line.startswith("Error: The following behavior constitutes a counter-example"):
+                    continue            # header of a counterexample trace, not an error of its own
                 if line.startswith("Error:") and not _INV.search(line) and not _PROP.search(line):
                     if "Postcondition" in line or "POSTCONDITION" in line or "post-condition" in line.lower():
                         res.postcondition_failed = True
